@@ -183,11 +183,27 @@ CHECKS = [
                 "C09.native_reopen job (22 properties, independence, one save/re-open, None, out-of-domain values; never counted as "
                 "proved). IEEE doubles as reals. isinstance(value, Length) on symbolic ints is not expressible (spcPts leg native only).",
     },
+    {
+        "property_id": "C04",
+        "technique": "contract-based deductive verification (pyvc over the real text setters/getters; structured symbolic strings; ghost text body)",
+        "category": "proof",
+        "text": "A text is seg0 sep1 seg1 ... with the break pattern enumerated (every arrangement of up to three \\n / \\v) and the "
+                "segments symbolic (z3 strings, possibly empty). Obligations from the real TextFrame.text, _Paragraph.text, _Run.text, "
+                "CT_TextParagraph.append_text/add_r/add_br/text/content_children, CT_RegularTextRun.text/_escape_ctrl_chars, "
+                "CT_TextLineBreak.text on a ghost text body: frame level one paragraph per \\n-segment with previous paragraphs removed "
+                "and bodyPr untouched; paragraph level one a:br per break and one a:r per non-empty segment holding esc(segment), in "
+                "order, a:pPr/a:endParaRPr kept, old content removed; read-back is esc(segments) joined by \\v; run level stores "
+                "esc(value); ground character lemma for all ASCII code points (C0 controls except TAB/LF -> _xHHHH_, others kept).",
+        "note": "Assumed: str.split / re.split return the maximal separator-free segments; re.sub with the one-character class is the "
+                "per-character map; lxml .text stores verbatim. Survival through save/re-open and the whole property on all strings of "
+                "length <= 3 (quick) / 5 (thorough) over 9 symbols at the four levels are covered by the bounded C04.native_strings job "
+                "only (never counted as proved).",
+    },
 ]
 
 _PENDING = "check not built yet in this session (planned, see DESIGN.md section 5)"
 NOT_APPLICABLE = [
     {"property_id": p, "reason": _PENDING}
-    for p in ["C01", "C02", "C03", "C04", "C07", "C12", "C13", "C16",
+    for p in ["C01", "C02", "C03", "C07", "C12", "C13", "C16",
               ]
 ]
